@@ -315,6 +315,38 @@ pub fn run(thorough: bool, seed: u64, driver: &str, rep: &mut Report) {
                         parse_all(t, &mut q, rep, true);
                         rep.count("corpus");
                     }
+                    // an EMPTY taxon name contains no whitespace, yet Phylip text cannot carry it: the row starts
+                    // with blanks and its first distance is read as the name (known finding, see known_findings.json)
+                    for n in 1..=4usize {
+                        for pos in 0..n {
+                            let mut taxa: Vec<String> = (0..n).map(|i| format!("L{i}")).collect();
+                            taxa[pos] = String::new();
+                            let cells: Vec<f64> = (0..tri(n)).map(|i| 1.0 + i as f64).collect();
+                            let m = DistanceMatrix::new(taxa.clone(), &cells);
+                            let bits = format!("ok {} | {}", enc_taxa(&taxa), cells.iter().map(|v| canon_f64(*v)).collect::<Vec<_>>().join(" "));
+                            for square in [true, false] {
+                                let case = format!("matrix f64 taxa={taxa:?} cells={cells:?} square={square}");
+                                rep.case(&case, true);
+                                rep.count("corpus:empty-taxon-name");
+                                let Ok(text) = guarded(AssertUnwindSafe(|| m.to_phylip(square).unwrap())) else {
+                                    rep.oracle("no-panic", "to_phylip", &case, "panic");
+                                    continue;
+                                };
+                                let entries: Vec<&str> = if square { vec!["strict-square"] } else { vec!["tril", "strict-tril"] };
+                                let mut bad = vec![];
+                                for e in entries {
+                                    let a = real_parse64(e, &text);
+                                    if a != bits {
+                                        bad.push(format!("{e}: {a}"));
+                                    }
+                                }
+                                if !bad.is_empty() {
+                                    rep.oracle("roundtrip", "empty-taxon-name", &case, &format!("text {text:?} parsed back as {bad:?}, expected {bits}"));
+                                }
+                                parse_all(&text, &mut q, rep, false);
+                            }
+                        }
+                    }
                 }
                 Job::Exhaustive { len, from, to } => {
                     for k in from..to {
